@@ -263,36 +263,40 @@ def build_db_session(sid, inp, lookups, letters=AA, with_internal=True):
     eng = inp["engine"]
     events = [dict(op="CheckInput", raised=False)]
     events.append(_index_events(inp, letters) if with_internal else dict(op="Build", logged=False))
-    kw = {}
-    if inp["mode"] == "hamming":
-        kw["custom_distance"] = "hamming"
-    elif inp["mode"] == "custom":
-        kw["custom_distance"] = cd_function(inp["cd"])
-        kw["max_custom_distance"] = float("inf") if inp["maxc"] >= INF else inp["maxc"] / 4.0
+    def mode_kw(mode):
+        if mode == "hamming":
+            return dict(custom_distance="hamming")
+        if mode == "custom":
+            return dict(custom_distance=cd_function(inp["cd"]), max_custom_distance=float("inf") if inp["maxc"] >= INF else inp["maxc"] / 4.0)
+        return {}
     db = nn.SymdelDB(ref, inp["k"]) if eng == "symdel" else nn.LookupDB(ref)
     api = "SymdelDB" if eng == "symdel" else "LookupDB"
-    if eng == "hash":
-        kw["max_edits"] = inp["k"]
     first = True
     for item in [inp["seqs2"]] + list(lookups):
-        # a further lookup is a query list, or (query list, max_edits) for LookupDB whose radius is per lookup
-        q, k_this = (item if (isinstance(item, (list, tuple)) and len(item) == 2 and isinstance(item[1], int) and not isinstance(item[0], int)) else (item, inp["k"]))
+        # a further lookup is a query list, or (query list, max_edits) for LookupDB whose radius is per lookup, or
+        # (query list, max_edits, mode): the distance mode is an argument of every lookup (NNSearch!NewLookup(q, k, mode))
+        mode_this = inp["mode"]
+        if isinstance(item, (list, tuple)) and len(item) == 3 and isinstance(item[2], str):
+            q, k_this, mode_this = item
+        else:
+            q, k_this = (item if (isinstance(item, (list, tuple)) and len(item) == 2 and isinstance(item[1], int) and not isinstance(item[0], int)) else (item, inp["k"]))
+        kw = mode_kw(mode_this)
         if eng == "hash":
             kw["max_edits"] = k_this
         qs = [dec(x, letters) for x in q]
         before = _snapshot(db)
         raised, ret, dense = None, [], []
         try:
-            ret = norm_triplets(db.lookup(qs, **kw), inp["mode"])
+            ret = norm_triplets(db.lookup(qs, **kw), mode_this)
         except Exception as e:     # noqa: BLE001
             raised = e
         changed = _snapshot(db) != before
         if not first:
-            events.append(dict(op="NewLookup", seqs2=q, k=k_this, db_changed=False))
+            events.append(dict(op="NewLookup", seqs2=q, k=k_this, mode=mode_this, db_changed=False))
         events.append(dict(op="Join", raised=raised is not None, ret=ret, db_changed=changed,
                            exc=(type(raised).__name__ + ": " + str(raised)[:200]) if raised is not None else ""))
         try:
-            dense = norm_dense(db.lookup(qs, output_type="ndarray", **kw), inp["mode"])
+            dense = norm_dense(db.lookup(qs, output_type="ndarray", **kw), mode_this)
             events.append(dict(op="Output", raised=False, dense=dense))
         except Exception as e:     # noqa: BLE001
             events.append(dict(op="Output", raised=True, dense=[], exc=type(e).__name__ + ": " + str(e)[:200]))
